@@ -69,14 +69,21 @@ def gen_scen(rng, idx):
             nop = "n" if q is None else "n:x" + q.encode().hex()
             ops.append(nop); mops.append(nop)
             if kind == "badtoken":
-                hdr = "%016x" % (int(TOKEN, 16) ^ (1 << rng.randrange(64))) + c
+                # 8 bytes that are not the token, followed by 0..40 more (or by nothing at all), and then silence: the
+                # server must close the carrier on the strength of the first 8 bytes
+                hdr = "%016x" % (int(TOKEN, 16) ^ (1 << rng.randrange(64))) + rng.choice(
+                    [c, c, "", c[:2], c[:14], c + "".join("%02x" % rng.randrange(256) for _ in range(rng.choice([1, 4, 24])))])
             elif kind == "short":
                 hdr = (TOKEN + c)[:2 * rng.randrange(0, 16)]
             else:
                 hdr = TOKEN + c
-            # header possibly fragmented
-            cut = rng.randrange(0, len(hdr) // 2 + 1)
-            for part in ([hdr[:2 * cut], hdr[2 * cut:]] if 0 < cut < len(hdr) // 2 else [hdr]):
+            # header possibly fragmented, or trickled byte by byte
+            if rng.random() < 0.15:
+                parts = [hdr[q:q + 2] for q in range(0, len(hdr), 2)]
+            else:
+                cut = rng.randrange(0, len(hdr) // 2 + 1)
+                parts = [hdr[:2 * cut], hdr[2 * cut:]] if 0 < cut < len(hdr) // 2 else [hdr]
+            for part in parts:
                 if part:
                     ops.append("r%d:x%s" % (i, part)); mops.append("r%d:x%s" % (i, part))
             if kind in ("good", "garbage"):
@@ -111,6 +118,18 @@ def gen_scen(rng, idx):
                 n = 2 * rng.choice([1, 1, 2, 3, 7, 50, 1000])
                 ops.append("r%d:x%s" % (i, s[pos:pos + n])); mops.append("r%d:x%s" % (i, s[pos:pos + n]))
                 pos += n
+            if not close_after and rng.random() < 0.12:
+                # many packets coalesced into ONE WebSocket message of several KiB (the model is given the same bytes in small
+                # pieces: message boundaries must not matter, C05_arrivals_concatenate)
+                bigmsg = ""
+                while len(bigmsg) < 2 * rng.choice([2100, 3000, 6000]):
+                    p = newpkt(rng.choice([10, 100, 400, 600]))
+                    bigmsg += prefix(len(p) // 2) + p
+                    carriers[i]["sent"].append(p)
+                    upn[0] += 1
+                ops.append("r%d:x%s" % (i, bigmsg))
+                for q in range(0, len(bigmsg), 800):
+                    mops.append("r%d:x%s" % (i, bigmsg[q:q + 800]))
             carriers[i]["sent"] += [p for end, p in pkts if end <= cutat]
             upn[0] += len([1 for end, p in pkts if end <= cutat])
             if ops and ops[-1].startswith("r%d:" % i):
@@ -137,6 +156,18 @@ def gen_scen(rng, idx):
                 closed_cids.add(carriers[i]["cid"])
         if any(k["kind"] == "garbage" for k in carriers):
             pass
+    # every ClientID that still has a carrier attached and never lost one to the peer must have been written everything
+    # WriteTo accepted for it (whichever of its carriers took what): the driver waits for the byte total, so that a
+    # loaded machine cannot make a packet look undelivered
+    exps = []
+    for c in cids:
+        if c in closed_cids or not written[c] or not open_carriers(c):
+            continue
+        allc = [i for i, k in enumerate(carriers) if k["cid"] == c and k["kind"] in ("good", "garbage")]
+        total = sum(len(prefix(len(p) // 2)) // 2 + len(p) // 2 for p in written[c])
+        exps.append("@S%s=%d" % ("+".join(map(str, allc)), total))
+    if exps:
+        ops.append("z" + "".join(exps))
     # garbage carriers: random bytes after the header, upstream only
     for i, k in enumerate(carriers):
         if k["kind"] == "garbage" and k["open"]:
@@ -148,7 +179,481 @@ def gen_scen(rng, idx):
     mustclose = [i for i, k in enumerate(carriers) if k["kind"] == "badtoken" or (k["kind"] in ("good", "garbage") and not k["open"] and k.get("cid"))]
     if mustclose:
         ops.append("z" + "".join("@k%d" % i for i in mustclose))
-    return ops, mops, dict(cids=cids, carriers=carriers, written=written, deterministic=deterministic, expdown=expdown)
+    return ops, mops, dict(cids=cids, carriers=carriers, written=written, deterministic=deterministic, expdown=expdown,
+                           closed_cids=sorted(closed_cids))
+
+
+# ------------------------------------------------------------------ timed scenarios (retention of the client map)
+
+RETENTION = 60000    # clientMapTimeout in ms; the driver uses the server's own constant for this value
+
+
+def timed_long(rng, mops):
+    """the scenario of gen_scen on the timed model with the server's retention: clock readings on every op that reaches
+    ClientMap.SendQueue, one idle gap of up to just under the retention somewhere, the sweeper running at arbitrary
+    moments. The whole scenario spans less than the retention, so nothing may expire."""
+    base = rng.choice([0, 0, 1, 1700000000000, -5, rng.randrange(0, 1 << 40)])
+    budget = RETENTION - 1
+    steps = [rng.choice([0, 0, 1, 2, 7, 20]) for _ in mops]
+    small = sum(steps)
+    gap = rng.choice([0, 1, 30000, budget - small, budget - small, rng.randrange(0, budget - small + 1)])
+    gap_at = rng.randrange(0, len(mops) + 1)
+    now = base
+    out = []
+    for j, (op, st) in enumerate(zip(mops, steps)):
+        if j == gap_at:
+            # the sweeper runs every half retention during the gap, and right at its end
+            k = now + RETENTION // 2
+            while k < now + gap:
+                out.append("v%d" % k)
+                k += RETENTION // 2
+            now += gap
+            out.append("v%d" % now)
+        now += st
+        if rng.random() < 0.1:
+            out.append("v%d" % now)
+        if op[0] in "rws":
+            out.append("%s:%d" % (op, now))
+        else:
+            out.append(op)
+    out.append("v%d" % (base + small + gap))
+    return out
+
+
+def gen_expiry(rng, idx, tmo):
+    """an idle gap LONGER than retention + sweep period (the driver really waits 1.75 timeouts with a short timeout):
+    every queue expires; packets queued for a session without a carrier are lost, an idle attached carrier is closed
+    by the server, and afterwards the session gets a NEW queue that delivers only what was written after the gap."""
+    cids = ["%016x" % rng.getrandbits(64) for _ in range(rng.randrange(1, 3))]
+    ops, mops = [], []
+    now = [rng.randrange(0, 1000)]
+    carriers = []     # dict(cid, open)
+    expdown = {}
+    downn = {}
+    pk = [0]
+
+    def tick():
+        now[0] += rng.choice([0, 1, 3])
+
+    def newpkt():
+        pk[0] += 1
+        return ("%04x%04x" % (idx & 0xffff, pk[0])) + "".join("%02x" % rng.randrange(256) for _ in range(rng.choice([0, 1, 5, 40])))
+
+    def attach(c):
+        i = len(carriers)
+        carriers.append(dict(cid=c, kind="good", open=True, sent=[]))
+        ops.append("n"); mops.append("n")
+        tick()
+        ops.append("r%d:x%s" % (i, TOKEN + c)); mops.append("r%d:x%s:%d" % (i, TOKEN + c, now[0]))
+        return i
+
+    def write(c, deliver_to):
+        p = newpkt()
+        tick()
+        ops.append("w:x%s:x%s" % (c, p)); mops.append("w:x%s:x%s:%d" % (c, p, now[0]))
+        if deliver_to is not None:
+            mops.append("s%d:%d" % (deliver_to, now[0]))
+            expdown.setdefault(deliver_to, []).append(p)
+            downn[deliver_to] = downn.get(deliver_to, 0) + len(prefix(len(p) // 2)) // 2 + len(p) // 2
+            ops[-1] += "@d%d=%d" % (deliver_to, downn[deliver_to])
+        return p
+
+    lost = []
+    attached = {}
+    for c in cids:
+        mode = rng.choice(["idle-carrier", "no-carrier", "closed-carrier"])
+        if mode != "no-carrier":
+            i = attach(c)
+            for _ in range(rng.randrange(0, 3)):
+                write(c, i)
+            if mode == "closed-carrier":
+                ops.append("c%d" % i); mops.append("c%d" % i)
+                carriers[i]["open"] = False
+            else:
+                attached[c] = i
+        if mode != "idle-carrier":
+            for _ in range(rng.randrange(1, 4)):
+                lost.append(write(c, None))
+    # the gap: in the model the sweeper runs once, 1.75 timeouts after the last touch
+    now[0] += tmo + tmo // 2 + tmo // 4
+    ops.append("V%d" % now[0]); mops.append("V%d" % now[0])
+    for c, i in attached.items():
+        # the write loop of the idle carrier finds its queue closed and closes the carrier
+        mops.append("s%d:%d" % (i, now[0]))
+        carriers[i]["open"] = False
+        carriers[i]["expired"] = True
+    if attached:
+        ops[-1] += "".join("@k%d" % i for i in attached.values())
+    for c in cids:
+        if rng.random() < 0.8:
+            i = attach(c)
+            for _ in range(rng.randrange(1, 3)):
+                write(c, i)
+        else:
+            write(c, None)
+    return ops, mops, dict(cids=cids, carriers=carriers, expdown=expdown, lost=lost)
+
+
+# ------------------------------------------------------------------ moving sessions through Listen/Accept
+
+def kcp_seg(conv, sn, data, ts=0, una=0, wnd=128):
+    import struct
+    return struct.pack("<IBBHIIII", conv, 81, 0, wnd, ts & 0xffffffff, sn, una, len(data)) + data
+
+
+def smux_frame(cmd, sid, data=b""):
+    import struct
+    return struct.pack("<BBHI", 2, cmd, len(data), sid) + data
+
+
+def scen_id(idx, salt):
+    return "%08x" % (0xC5000000 | ((salt & 0xff) << 16) | (idx & 0xffff))
+
+
+def kcp_push_segments(wire_hex):
+    """what a carrier received downstream: encapsulation chunks -> KCP segments; returns [(conv, cmd, sn, data)] or None if
+    the bytes do not end at a chunk boundary / a packet is not a sequence of whole segments"""
+    import struct
+    chunks, err = c09.py_decode(wire_hex)
+    if err != "eof":
+        return None
+    out = []
+    for ch in chunks:
+        p = bytes.fromhex(ch)
+        while p:
+            if len(p) < 24:
+                return None
+            conv, cmd, frg, wnd, ts, sn, una, ln = struct.unpack("<IBBHIIII", p[:24])
+            if len(p) < 24 + ln:
+                return None
+            out.append((conv, cmd, sn, p[24:24 + ln]))
+            p = p[24 + ln:]
+    return out
+
+
+def smux_payload(stream):
+    import struct
+    data = b""
+    while len(stream) >= 8:
+        ver, cmd, ln, sid = struct.unpack("<BBHI", stream[:8])
+        if len(stream) < 8 + ln:
+            break
+        if cmd == 2:
+            data += stream[8:8 + ln]
+        stream = stream[8 + ln:]
+    return data
+
+
+def gen_move(rng, idx, salt=0):
+    """Black-box scenario for the real Listen/Accept path. 1..3 client sessions (ClientID, KCP conversation, one smux
+    stream, application bytes up and down), each moving over several carriers: sequentially, overlapping, after an idle gap
+    shorter than the retention, cut in mid-packet; a new carrier re-sends segments the old one already carried (as KCP
+    does) and continues; WebSocket message boundaries are arbitrary (one byte .. tens of KiB, many packets per message,
+    packets split across messages); the application behind Accept writes downstream data at arbitrary moments (also while
+    no carrier is attached); next to them carriers WITHOUT the token (wrong 8 bytes followed by 0..12 more, all at once or
+    trickled) and carriers that send fewer than 8 bytes, all of which then stay silent.
+    Returns impl ops, model ops, meta."""
+    sid_hex = scen_id(idx, salt)
+    nsess = rng.randrange(1, 4)
+    S = []
+    for j in range(nsess):
+        cid = "%016x" % rng.getrandbits(64)
+        conv = rng.choice([rng.getrandbits(32), 1, 0xffffffff, 0x00f10000 | rng.getrandbits(16)])
+        big = rng.random() < 0.25
+        app = bytes.fromhex(sid_hex) + bytes([j]) + bytes(rng.randrange(256) for _ in range(rng.choice([20000, 64000]) if big else rng.choice([1, 5, 40, 200, 700])))
+        sid = rng.choice([1, 3, 7])
+        stream = smux_frame(0, sid)
+        pos = 0
+        while pos < len(app):
+            n = rng.choice([1000, 4000]) if big else rng.choice([1, 3, 16, 100, 400])
+            if pos == 0:
+                n = first_frame = rng.choice([5, 8, 16])   # the label by which the driver attributes the connection
+            stream += smux_frame(2, sid, app[pos:pos + n])
+            pos += n
+        segs, pos = [], 0
+        while pos < len(stream):
+            n = rng.choice([500, 700]) if big else rng.choice([1, 7, 8, 20, 60, 300])
+            if pos == 0:
+                # stream open + the whole first frame (smux hands a frame to the stream only when it is complete) in the first
+                # segment: the session is accepted and labelled as soon as that segment arrives
+                n = max(n, 16 + first_frame)
+            segs.append(kcp_seg(conv, len(segs), stream[pos:pos + n], ts=rng.getrandbits(20)))
+            pos += n
+        down = bytes(rng.randrange(256) for _ in range(rng.choice([0, 1, 30, 300, 1200])))
+        S.append(dict(j=j, cid=cid, conv=conv, app=app, segs=segs, sent=0, carriers=[], hops=rng.randrange(1, 4), big=big,
+                      down=down, down_written=0))
+    if nsess > 1 and rng.random() < 0.3:
+        S[1]["conv"] = S[0]["conv"]      # same KCP conversation id in two sessions: only the ClientID tells them apart
+        S[1]["segs"] = [kcp_seg(S[0]["conv"], k, s[24:]) for k, s in enumerate(S[1]["segs"])]
+    ops, mops = ["i" + sid_hex], []
+    base = rng.choice([0, 5, 1700000000000])
+    now = [base]
+    ncar = [0]
+    kinds = set()
+    tokenless = []      # dict(i, kind, must_close)
+
+    def both(o, timed=False):
+        ops.append(o)
+        mops.append(o + (":%d" % now[0] if timed else ""))
+
+    def send_msgs(i, hexbytes, sizes):
+        """one impl op = one WebSocket message; the model gets the same bytes in pieces of at most 400 bytes (the read loop
+        does not depend on the fragmentation: C05_arrivals_concatenate)"""
+        pos = 0
+        while pos < len(hexbytes):
+            n = 2 * rng.choice(sizes)
+            msg = hexbytes[pos:pos + n]
+            ops.append("r%d:x%s" % (i, msg))
+            for q in range(0, len(msg), 800):
+                now[0] += rng.choice([0, 1])
+                mops.append("r%d:x%s:%d" % (i, msg[q:q + 800], now[0]))
+            pos += n
+
+    SMALL = [1, 5, 24, 30, 100, 1000]
+    BIG = [3000, 9000, 30000, 65536]
+
+    def new_carrier(s):
+        i = ncar[0]
+        ncar[0] += 1
+        both("n")
+        s["carriers"].append(i)
+        send_msgs(i, TOKEN + s["cid"], [3, 8, 16, 1000])
+        return i
+
+    def seg_hex(seg):
+        return prefix(len(seg)) + seg.hex()
+
+    def progress(s, i, upto, replay):
+        if replay == "all":
+            idxs = list(range(0, s["sent"]))
+        elif replay == "some":
+            idxs = [k for k in range(0, s["sent"]) if rng.random() < 0.5]
+        else:
+            idxs = []
+        idxs += list(range(s["sent"], upto))
+        if rng.random() < 0.2:
+            rng.shuffle(idxs)         # KCP copes with reordering
+        # the segments as one byte stream, cut into WebSocket messages of arbitrary sizes
+        send_msgs(i, "".join(seg_hex(s["segs"][k]) for k in idxs), BIG if (s["big"] or rng.random() < 0.15) else SMALL)
+        if s["big"]:
+            kinds.add("big-messages")
+        s["sent"] = max(s["sent"], upto)
+
+    def app_write(s):
+        # the application behind Accept writes some of its downstream bytes (possible once the session was accepted)
+        if s["sent"] == 0 or s["down_written"] >= len(s["down"]):
+            return
+        n = rng.randrange(1, len(s["down"]) - s["down_written"] + 1)
+        ops.append("w%d:x%s" % (s["j"], s["down"][s["down_written"]:s["down_written"] + n].hex()))
+        s["down_written"] += n
+        kinds.add("downstream")
+
+    def add_tokenless():
+        i = ncar[0]
+        ncar[0] += 1
+        both("n")
+        kind = rng.choice(["wrong-token", "wrong-token", "wrong-token-trickled", "short"])
+        kinds.add(kind)
+        if kind == "short":
+            hdr = (TOKEN + "%016x" % rng.getrandbits(64))[:2 * rng.randrange(0, 8)]
+            if hdr:
+                send_msgs(i, hdr, [1, 3, 8])
+            tokenless.append(dict(i=i, kind=kind, must_close=False))
+        else:
+            bad = "%016x" % (int(TOKEN, 16) ^ (1 << rng.randrange(64)))
+            hdr = bad + "".join("%02x" % rng.randrange(256) for _ in range(rng.choice([0, 0, 1, 7, 8, 12, 40])))
+            send_msgs(i, hdr, [1] if kind == "wrong-token-trickled" else [8, 16, 1000])
+            tokenless.append(dict(i=i, kind=kind, must_close=True))
+            ops[-1] += "@k%d" % i     # ... and then it stays silent: the server must close it
+
+    active = list(range(nsess))
+    cur = {}
+    while active:
+        if rng.random() < 0.15:
+            add_tokenless()
+        j = rng.choice(active)
+        s = S[j]
+        last = s["hops"] <= 1
+        upto = len(s["segs"]) if last else rng.randrange(s["sent"], len(s["segs"]) + 1)
+        if j not in cur:
+            cur[j] = new_carrier(s)
+            # kcp-go's receive window is 32 segments until acceptSessions has enlarged it: the first burst stays below that
+            # and the driver waits for the connection to be accepted before more is sent
+            first = min(len(s["segs"]), 25) if last else max(1, min(upto, 25))
+            progress(s, cur[j], first, None)
+            ops[-1] += "@a%d" % sum(1 for x in S if x["sent"] > 0)
+            if first < upto:
+                progress(s, cur[j], upto, None)
+        else:
+            mode = rng.choice(["sequential", "overlapping", "gap", "cut-mid-packet"])
+            kinds.add(mode)
+            old = cur[j]
+            if mode == "sequential":
+                both("c%d" % old)
+                if rng.random() < 0.5:
+                    app_write(s)       # while no carrier is attached: the packets wait in the session's queue
+                cur[j] = new_carrier(s)
+            elif mode == "overlapping":
+                cur[j] = new_carrier(s)
+                if s["sent"] < upto:
+                    send_msgs(old, seg_hex(s["segs"][s["sent"]]), SMALL)
+            elif mode == "gap":
+                both("c%d" % old)
+                if rng.random() < 0.5:
+                    app_write(s)
+                g = rng.choice([20, 80, 250])
+                ops.append("g%d" % g)
+                gm = min(rng.choice([g, 30000, RETENTION - 1]), max(0, RETENTION - 1 - (now[0] - base)))
+                k = now[0] + RETENTION // 2
+                while k < now[0] + gm:
+                    mops.append("v%d" % k)
+                    k += RETENTION // 2
+                now[0] += gm
+                mops.append("v%d" % now[0])
+                cur[j] = new_carrier(s)
+            else:
+                if s["sent"] < len(s["segs"]):
+                    h = seg_hex(s["segs"][s["sent"]])
+                    send_msgs(old, h[:2 * rng.randrange(1, len(h) // 2)], SMALL)
+                both("c%d" % old)
+                cur[j] = new_carrier(s)
+            progress(s, cur[j], upto, rng.choice(["all", "all", "some", None]) if not s["big"] else None)
+        if rng.random() < 0.6:
+            app_write(s)
+        s["hops"] -= 1
+        if last:
+            if len(s["carriers"]) > 1 and not s["big"]:
+                # always re-send from sn 0 on the last carrier: harmless for one session, but a session that was split on
+                # the move then shows up as a second connection
+                send_msgs(cur[j], "".join(seg_hex(x) for x in s["segs"]), SMALL)
+            while s["down_written"] < len(s["down"]):
+                app_write(s)
+            active.remove(j)
+    if rng.random() < 0.5:
+        add_tokenless()
+    total = sum(len(s["app"]) - 5 for s in S)
+    fin = "z@a%d@t%d" % (nsess, total)
+    for s in S:
+        if s["down"]:
+            fin += "@e%s=%d" % ("+".join(map(str, s["carriers"])), len(s["down"]))
+    fin += "".join("@k%d" % t["i"] for t in tokenless if t["must_close"])
+    ops.append(fin)
+    return ops, mops, dict(sid=sid_hex, ncar=ncar[0], tokenless=tokenless, model=not any(s["big"] for s in S),
+                           sessions=[dict(j=s["j"], cid=s["cid"], conv=s["conv"], app=s["app"].hex(), down=s["down"].hex(),
+                                          carriers=s["carriers"], last=cur[s["j"]]) for s in S],
+                           kinds=sorted(kinds) or ["single-carrier"])
+
+
+def gen_move_long(rng, idx, gap_ms=95000):
+    """one session whose only carrier is cut in mid-transfer; NO carrier for longer than retention + sweep period (really
+    waited for: thorough tier only); then a new carrier re-sends everything. The client map has forgotten the session
+    (its queued downstream packets are gone) but kcp-go's session table has not: still ONE accepted connection whose
+    stream continues — which is what the model's listener view says."""
+    sid_hex = scen_id(idx, 0xee)
+    cid = "%016x" % rng.getrandbits(64)
+    conv = rng.getrandbits(32)
+    app = bytes.fromhex(sid_hex) + bytes([0]) + bytes(rng.randrange(256) for _ in range(300))
+    stream = smux_frame(0, 3) + b"".join(smux_frame(2, 3, app[i:i + 50]) for i in range(0, len(app), 50))
+    segs = [kcp_seg(conv, k, stream[i:i + 40]) for k, i in enumerate(range(0, len(stream), 40))]
+    half = len(segs) // 2
+    ops, mops = ["i" + sid_hex, "n", "r0:x" + TOKEN + cid], ["n", "r0:x%s:0" % (TOKEN + cid)]
+    now = 1
+    for s in segs[:half]:
+        h = prefix(len(s)) + s.hex()
+        ops.append("r0:x" + h); mops.append("r0:x%s:%d" % (h, now))
+        now += 1
+    ops[-1] += "@a1"
+    ops += ["c0", "g%d" % gap_ms]
+    mops += ["c0"] + ["v%d" % (now + k) for k in range(30000, gap_ms + 1, 30000)]
+    now += gap_ms
+    ops += ["n", "r1:x" + TOKEN + cid]; mops += ["n", "r1:x%s:%d" % (TOKEN + cid, now)]
+    for s in segs:
+        h = prefix(len(s)) + s.hex()
+        ops.append("r1:x" + h); mops.append("r1:x%s:%d" % (h, now))
+        now += 1
+    ops.append("z@a1@t%d" % (len(app) - 5))
+    return ops, mops, dict(sid=sid_hex, ncar=2, tokenless=[], model=True,
+                           sessions=[dict(j=0, cid=cid, conv=conv, app=app.hex(), down="", carriers=[0, 1], last=1)],
+                           kinds=["gap-beyond-retention"])
+
+
+def check_move(meta, d, md):
+    """the property on the black-box driver's answer (d) and the comparison with the model's listener view (md)"""
+    bad = []
+    sess = meta["sessions"]
+    got = [] if d.get("st", "-") == "-" else [x.split(":") for x in d["st"].split(",")]
+    got = [(int(j), x[1:]) for j, x in got]
+    acc = int(d.get("accepted", "-1"))
+    want = {s["j"]: s["app"][10:] for s in sess}        # without the 5 label bytes the driver consumed
+    if int(d.get("stray", "0")) > 0:
+        bad.append(("upstream-foreign-packet", "the server accepted %s connection(s) whose stream does not begin like any session's" % d["stray"]))
+    if acc > len(sess):
+        bad.append(("session-split-on-move", "%d client session(s), each moving over its carriers, surfaced as %d accepted connections" % (len(sess), acc)))
+    elif acc < len(sess):
+        mixed = [st for j, st in got if not want.get(j, "").startswith(st)]
+        if mixed:
+            bad.append(("session-merged", "%d client sessions with distinct ClientIDs surfaced as %d accepted connection(s), one of them "
+                        "delivering bytes that are no prefix of its session's stream" % (len(sess), acc)))
+        else:
+            bad.append(("session-not-accepted", "%d client session(s) but only %d accepted connection(s): a session's packets never made "
+                        "a connection" % (len(sess), acc)))
+    else:
+        for j, st in got:
+            w = want.get(j)
+            if w is None or st == w:
+                continue
+            if w.startswith(st):
+                bad.append(("upstream-lost-or-duplicated", "the connection of session %d delivered only %d of the %d bytes its client sent: upstream "
+                            "packets were lost (the stream did not continue)" % (j, len(st) // 2, len(w) // 2)))
+            else:
+                other = [jj for jj, ww in want.items() if jj != j and st[:40] and st[:40] in ww]
+                bad.append(("upstream-wrong-session" if other else "session-stream-broken",
+                            "the connection of session %d delivered bytes that are not a prefix of what its client sent%s" % (
+                                j, " (they belong to session %d)" % other[0] if other else "")))
+            break
+    # carriers without the token: closed by the server, nothing written to them
+    for t in meta["tokenless"]:
+        st, wire = d.get("k%d" % t["i"], "open:x").split(":")
+        if wire[1:]:
+            bad.append(("no-token-carrier-got-data", "carrier %d (%s) received downstream bytes" % (t["i"], t["kind"])))
+        if t["must_close"] and st != "closed":
+            bad.append(("tokenless-carrier-not-closed", "carrier %d sent 8 bytes that are not the turbotunnel token (%s) and then stayed silent: "
+                        "the server did not close it" % (t["i"], t["kind"])))
+    # downstream: what the carriers of a session received decodes to KCP segments of that session's conversation whose
+    # data, in sequence-number order, is a prefix of what the application behind Accept wrote to that session
+    by_conv = {}
+    for s in sess:
+        by_conv.setdefault(s["conv"], []).append(s)
+    for s in sess:
+        segs = {}
+        for i in s["carriers"]:
+            st, wire = d.get("k%d" % i, "open:x").split(":")
+            ks = kcp_push_segments(wire[1:])
+            if ks is None:
+                bad.append(("downstream-not-framed", "carrier %d downstream is not a sequence of whole packets of whole KCP segments" % i))
+                continue
+            for conv, cmd, sn, data in ks:
+                if conv != s["conv"]:
+                    bad.append(("downstream-wrong-session", "carrier %d (ClientID %s, conversation %d) was written a KCP segment of conversation %d" % (
+                        i, s["cid"], s["conv"], conv)))
+                    break
+                if cmd == 81:
+                    segs.setdefault(sn, data)
+        stream, sn = b"", 0
+        while sn in segs:
+            stream += segs[sn]
+            sn += 1
+        echoed = smux_payload(stream).hex()
+        if not s["down"].startswith(echoed):
+            owner = [x["j"] for x in sess if x is not s and echoed[:16] and echoed[:16] in x["down"]]
+            bad.append(("downstream-wrong-session" if owner else "downstream-foreign-packet",
+                        "the carriers of session %d were written application data that is not a prefix of what was written to that session%s" % (
+                            s["j"], " (it was written to session %d)" % owner[0] if owner else "")))
+        elif echoed != s["down"] and not bad:
+            bad.append(("downstream-not-delivered", "session %d: only %d of the %d bytes the application wrote reached the session's carriers, "
+                        "although the last one stayed attached" % (s["j"], len(echoed) // 2, len(s["down"]) // 2)))
+    macc = [] if md.get("acc", "-") == "-" else md["acc"].split(",")
+    return bad, len(macc)
 
 
 def parse_impl(o):
@@ -212,22 +717,161 @@ def check_props(meta, d):
     return bad
 
 
+def subseq(a, b):
+    it = iter(b)
+    return all(x in it for x in a)
+
+
+def check_log(meta, d, md):
+    """the downstream side relationally, for every scenario (also those where the scheduler chooses between two open
+    carriers of one ClientID): the model's log of packets taken off the queues, followed by what is still queued,
+    is per ClientID what WriteTo accepted, in order (C05_downstream_exactly_once_in_order); every carrier of the
+    implementation must have been written an in-order subsequence of that, and together they must have been written
+    everything when a carrier stayed attached and the peer closed none of them."""
+    bad, notshown = [], []
+    log = [] if md.get("log", "-") == "-" else [x.split(":") for x in md["log"].split(",")]
+    q = [] if md.get("q", "-") == "-" else [x.split(":") for x in md["q"].split(",")]
+    order = {}
+    for o, c, p in log:
+        order.setdefault(c[1:], []).append(p[1:])
+    for c, p in q:
+        order.setdefault(c[1:], []).append(p[1:])
+    for c in meta["cids"]:
+        if order.get(c, []) != meta["written"].get(c, []):
+            notshown.append("model: log + queue of ClientID %s is not what WriteTo was given" % c)
+    # the model's own carriers are written exactly their log entries
+    for i, k in enumerate(meta["carriers"]):
+        mf = md.get("k%d" % i, "::x").split(":")
+        chunks, err = c09.py_decode(mf[2][1:])
+        if chunks != [p[1:] for o, c, p in log if o == str(i)]:
+            notshown.append("model: carrier %d's wire is not its log entries" % i)
+    got = {}
+    for i, k in enumerate(meta["carriers"]):
+        if k["kind"] not in ("good", "garbage") or not k["cid"]:
+            continue
+        st, wire = d.get("k%d" % i, "open:x").split(":")
+        chunks, err = c09.py_decode(wire[1:])
+        acc = order.get(k["cid"], [])
+        if all(p in acc for p in chunks) and not subseq(chunks, acc):
+            bad.append(("downstream-reordered", "carrier %d (ClientID %s) was written its packets in an order different from the order WriteTo "
+                        "accepted them: %s" % (i, k["cid"], ",".join(p[:8] for p in chunks[:6]))))
+        got.setdefault(k["cid"], []).extend(chunks)
+    for c in meta["cids"]:
+        mine = [k for k in meta["carriers"] if k["cid"] == c and k["kind"] in ("good", "garbage")]
+        attached = [k for k in mine if k["open"]]
+        acc = order.get(c, [])
+        missing = [p for p in acc if p not in got.get(c, [])]
+        # (a carrier closed by the peer may take packets with it: its write loop races with the close)
+        if attached and missing and c not in meta["closed_cids"]:
+            bad.append(("downstream-not-delivered", "ClientID %s has a carrier attached and lost none to the peer, yet %d of the %d packets written "
+                        "to it reached none of its carriers" % (c, len(missing), len(acc))))
+    return bad, notshown
+
+
+def fields_equal(meta, d, md, states=True):
+    """model and implementation on the projected observables: upstream packets in order, per carrier the downstream bytes
+    and whether the server closed it"""
+    if d.get("up") != md.get("up"):
+        return False
+    for i, k in enumerate(meta["carriers"]):
+        ist, iw = d.get("k%d" % i, ":x").split(":")
+        mf = md.get("k%d" % i, "::").split(":")
+        if iw != mf[2]:
+            return False
+        if states and (mf[0] == "dead") != (ist == "closed") and k["kind"] != "short":
+            return False
+    return True
+
+
+def build_inpackage():
+    """The test binary of server/lib with ONLY this area's in-package driver injected (its own overlay map), so that
+    another area's in-package file that stops compiling after a refactor cannot take this view down with it."""
+    import json
+    vlib.go_prepare()
+    rel = os.path.join("server", "lib", "zz_verif_c05_test.go")
+    ov = os.path.join(vlib.GOB, "overlay_c05.json")
+    data = json.dumps({"Replace": {os.path.join(vlib.REPO, rel): os.path.join(vlib.OVERLAY_SRC, rel)}}, indent=1)
+    if not os.path.exists(ov) or open(ov).read() != data:
+        open(ov, "w").write(data)
+    out = os.path.join(vlib.GOB, "bin", "serverlib_c05.test")
+    os.makedirs(os.path.dirname(out), exist_ok=True)
+    rc, o, e = vlib.sh(["go", "test", "-c", "-vet=off", "-tags", "verif", "-modfile=" + os.path.join(vlib.GOB, "go.mod"), "-overlay", ov,
+                        "-ldflags=-checklinkname=0", "-o", out, "./server/lib"], cwd=vlib.REPO, env=vlib.GOENV, timeout=900)
+    if rc != 0:
+        raise vlib.GoBuildError("go test -c ./server/lib (in-package C05 driver) failed:\n%s" % (o + e)[-3000:])
+    return out
+
+
 def run(ctx):
-    exe = vlib.go_test_build("./server/lib", name="serverlib.test")
     env = dict(os.environ, VERIF_DRIVER="c05")
     ctx.assumptions += ["model = coq/Model/CarrierLayer.v over Model/Encap.v; QueuePacketConn queues as bounded FIFOs (proved for the code in C17)",
-                        "which of two simultaneously open carriers of one ClientID takes a packet is the scheduler's choice: checked relationally",
-                        "kcp-go/smux ('exactly one accepted connection whose stream continues') are outside the model: observed by C18's and C01's black-box runs"]
-    ctx.trusted.append("harness/overlay/server/lib/zz_verif_c05_test.go (real httpHandler + gorilla/websocket carriers, driver-owned QueuePacketConn)")
-    n = 220 if ctx.tier == "quick" else 2500
-    scen = [gen_scen(ctx.rng, i) for i in range(n)]
-    lines = ["carrierlayer run " + ",".join(ops) for ops, _, _ in scen]
-    rc, out, err = vlib.run_impl(exe, lines, args=["-test.run", "^TestVerifC05Driver$"], env=env, timeout=1200)
-    if rc != 0 or len(out) != len(lines):
-        ctx.violation("driver-crash", "server carrier driver died rc=%s: %s" % (rc, err[-800:]), dict(stderr=err[-3000:]))
-        return
+                        "timed model = coq/Model/CarrierTimed.v: the carrier layer composed with C17's client-map model (explicit clock); the driver's "
+                        "real time stays far inside the model's nominal time (gaps below the retention are milliseconds for the driver; the gap beyond "
+                        "it is really waited for, 1.75 x a 2 s timeout)",
+                        "which of two simultaneously open carriers of one ClientID takes a packet is the scheduler's choice: checked relationally "
+                        "against the model's log of packets taken off the queues",
+                        "kcp-go's session demultiplexing (by RemoteAddr().String() = ClientID, conversation id, sn) is modelled (listener_view) and "
+                        "observed through the real Listen/Accept path with hand-made KCP/smux segments; KCP's ARQ and smux are libraries, not modelled"]
+    ctx.trusted.append("harness/overlay/zz_verif/c05bb/main.go: black-box driver, exported API only (Transport.Listen + Accept, gorilla/websocket "
+                       "carriers); harness/overlay/server/lib/zz_verif_c05_test.go: second, in-package view (real httpHandler with a driver-owned "
+                       "QueuePacketConn: packets instead of streams)")
+    quick = ctx.tier == "quick"
+    # ---- the black-box view: always available (nothing unexported is used)
+    bb = vlib.go_build("./zz_verif/c05bb")
+    moves = [gen_move(ctx.rng, i) for i in range(44 if quick else 400)]
+    if not quick:
+        # the real one-minute retention, really exceeded (95 s without a carrier): first in the list so that it overlaps the rest
+        moves = [gen_move_long(ctx.rng, i) for i in range(2)] + moves
+    # ---- the in-package view (packet level): optional
+    try:
+        exe = build_inpackage()
+    except vlib.GoBuildError as e:
+        exe = None
+        note = ("in-package view unavailable: harness/overlay/server/lib/zz_verif_c05_test.go no longer compiles against this tree (an internal "
+                "refactor of server/lib?); the black-box view (exported API) still ran. " + str(e)[-600:].replace("\n", " | "))
+        vlib.log("C05 note: " + note[:400])
+        ctx.extra["notes"] = [note]
+        ctx.assumptions.append(note[:300])
+    n = 220 if quick else 2500
+    scen = [gen_scen(ctx.rng, i) for i in range(n)] if exe else []
+    nt = (70 if quick else 700) if exe else 0
+    timed = [(scen[i], timed_long(ctx.rng, scen[i][1])) for i in range(nt)]
+    TMO = 2000
+    expiry = [gen_expiry(ctx.rng, i, TMO) for i in range(3 if quick else 16)] if exe else []
     mlines = ["carrierlayer run " + ",".join(mops) for _, mops, _ in scen]
+    mlines += ["carrierlayer trun %d %s" % (RETENTION, ",".join(tm)) for _, tm in timed]
+    mlines += ["carrierlayer trun %d %s" % (TMO, ",".join(mops)) for _, mops, _ in expiry]
+    mlines += ["carrierlayer trun %d %s" % (RETENTION, ",".join(mops) if meta["model"] else "n") for _, mops, meta in moves]
     mout = vlib.run_model(mlines)
+
+    def wait_for_closes(ops, mo, ncar):
+        # the driver waits (bounded) until every carrier the model says the server closed has been closed and as many upstream
+        # packets have surfaced as the model says (random bytes on a carrier can contain whole chunks), so that an effect
+        # that is late on a loaded machine is not taken for a disagreement
+        md = parse_impl(mo)
+        dead = [i for i in range(ncar) if md.get("k%d" % i, "").startswith("dead")]
+        nup = 0 if md.get("up", "-") == "-" else len(md["up"].split(","))
+        return ops + ["z@u%d" % nup + "".join("@k%d" % i for i in dead)]
+
+    lines = ["carrierlayer run " + ",".join(wait_for_closes(ops, mo, len(meta["carriers"]))) for (ops, _, meta), mo in zip(scen, mout)]
+    lines += ["carrierlayer trun %d %s" % (RETENTION, ",".join(wait_for_closes(sc[0], mo, len(sc[2]["carriers"]))))
+              for (sc, _), mo in zip(timed, mout[len(scen):])]
+    lines += ["carrierlayer trun %d %s" % (TMO, ",".join(ops)) for ops, _, _ in expiry]
+    out = []
+    if exe:
+        rc, out, err = vlib.run_impl(exe, lines, args=["-test.run", "^TestVerifC05Driver$"], env=env, timeout=1800)
+        if rc != 0 or len(out) != len(lines):
+            ctx.violation("driver-crash", "server carrier driver died rc=%s: %s" % (rc, err[-800:]), dict(stderr=err[-3000:]))
+            return
+    blines = ["carrierlayer move " + ",".join(ops) for ops, _, _ in moves]
+    rc, bout, err = vlib.run_impl(bb, blines, timeout=1800)
+    if rc != 0 or len(bout) != len(blines):
+        ctx.violation("driver-crash", "black-box server driver died rc=%s: %s" % (rc, err[-800:]), dict(stderr=err[-3000:]))
+        return
+    lines += blines
+    out += bout
+    pos = 0
+    # ---- untimed scenarios
     for (ops, mops, meta), line, o, ml, mo in zip(scen, lines, out, mlines, mout):
         kinds = "+".join(sorted(set(k["kind"] for k in meta["carriers"]))) + ("" if meta["deterministic"] else "+shared-cid")
         ctx.count(line, kind=kinds)
@@ -236,36 +880,108 @@ def run(ctx):
             ctx.violation("request-" + o.split(" ")[0].strip("!:"), "driver failure: " + o[:200], rep)
             continue
         d = parse_impl(o)
+        md = parse_impl(mo)
         for key, text in check_props(meta, d):
             ctx.violation(key, text, rep)
-        md = parse_impl(mo)
-        # upstream is deterministic (ops are settled one by one)
+        lbad, lns = check_log(meta, d, md)
+        for key, text in lbad:
+            ctx.violation(key, text, rep)
+        for t in lns:
+            ctx.not_shown("correspondence carrierlayer: %s: case=%s model=%s" % (t, ml[:400], mo[:300]))
+        # upstream is deterministic (ops are settled one by one); downstream bytes too unless the scheduler has a choice
         same = d.get("up") == md.get("up")
         if same and meta["deterministic"]:
-            for i, k in enumerate(meta["carriers"]):
-                ist, iw = d.get("k%d" % i, ":x").split(":")
-                mf = md.get("k%d" % i, "::").split(":")
-                if iw != mf[2]:
-                    same = False
-                if (mf[0] == "dead") != (ist == "closed") and k["kind"] != "short":
-                    same = False
+            same = fields_equal(meta, d, md)
         if not same:
             ctx.not_shown("correspondence carrierlayer: model and implementation disagree: case=%s impl=%s model=%s" % (ml[:400], o[:300], mo[:300]))
+    pos = len(scen)
+    # ---- the same scenarios on the timed model with the server's retention (nothing may expire)
+    for j, (sc, tm) in enumerate(timed):
+        ops, mops, meta = sc
+        line, o, ml, mo = lines[pos + j], out[pos + j], mlines[pos + j], mout[pos + j]
+        ctx.count(line, kind="timed:" + ("deterministic" if meta["deterministic"] else "shared-cid"))
+        rep = dict(case=line[:8000], impl=o[:3000], model=mo[:3000], model_case=ml[:8000])
+        if o.startswith("!"):
+            ctx.violation("request-" + o.split(" ")[0].strip("!:"), "driver failure: " + o[:200], rep)
+            continue
+        d, md, mu = parse_impl(o), parse_impl(mo), parse_impl(mout[j])
+        for key, text in check_props(meta, d):
+            ctx.violation(key, text, rep)
+        # the timed model refines the untimed one when nothing expires
+        if mu.get("up") != md.get("up") or any(md.get("k%d" % i) != mu.get("k%d" % i) for i in range(len(meta["carriers"]))):
+            ctx.not_shown("timed and untimed model disagree although nothing can expire: case=%s timed=%s untimed=%s" % (ml[:400], mo[:300], mout[j][:300]))
+        if md.get("lost", "-") != "-":
+            ctx.not_shown("timed model lost packets although nothing can expire: case=%s model=%s" % (ml[:400], mo[:300]))
+        same = d.get("up") == md.get("up")
+        if same and meta["deterministic"]:
+            same = fields_equal(meta, d, md)
+        if not same:
+            ctx.not_shown("correspondence carrierlayer (timed): model and implementation disagree: case=%s impl=%s model=%s" % (ml[:400], o[:300], mo[:300]))
+    pos += len(timed)
+    # ---- beyond the retention
+    for j, (ops, mops, meta) in enumerate(expiry):
+        line, o, ml, mo = lines[pos + j], out[pos + j], mlines[pos + j], mout[pos + j]
+        ctx.count(line, kind="expiry")
+        rep = dict(case=line[:8000], impl=o[:3000], model=mo[:3000], model_case=ml[:8000])
+        if o.startswith("!"):
+            ctx.violation("request-" + o.split(" ")[0].strip("!:"), "driver failure: " + o[:200], rep)
+            continue
+        d, md = parse_impl(o), parse_impl(mo)
+        # property: nothing crosses sessions, nothing is written twice, also around an expiry
+        seen = {}
+        for i, k in enumerate(meta["carriers"]):
+            st, wire = d.get("k%d" % i, "open:x").split(":")
+            chunks, e = c09.py_decode(wire[1:])
+            for p in chunks:
+                seen[p] = seen.get(p, 0) + 1
+        for p, cnt in seen.items():
+            if cnt > 1:
+                ctx.violation("downstream-duplicated", "packet %s.. was written to %d carriers" % (p[:16], cnt), rep)
+        if not fields_equal(meta, d, md):
+            ctx.not_shown("correspondence carrierlayer (expiry): model and implementation disagree: case=%s impl=%s model=%s" % (ml[:500], o[:300], mo[:300]))
+    pos += len(expiry)
+    # ---- moving sessions through the real Listen / Accept (black box)
+    for j, (ops, mops, meta) in enumerate(moves):
+        line, o, ml, mo = lines[pos + j], out[pos + j], mlines[pos + j], mout[pos + j]
+        ctx.count(line, kind="move:" + "+".join(meta["kinds"]))
+        rep = dict(case=line[:20000], impl=o[:3000], model=mo[:3000], model_case=ml[:12000], driver="c05bb")
+        if o.startswith("!"):
+            ctx.violation("request-" + o.split(" ")[0].strip("!:"), "driver failure: " + o[:200], rep)
+            continue
+        d, md = parse_impl(o), parse_impl(mo)
+        bad, macc = check_move(meta, d, md)
+        for key, text in bad:
+            ctx.violation(key, text, rep)
+        if not meta["model"]:
+            continue
+        if macc != len(meta["sessions"]):
+            ctx.not_shown("model: listener view has %d connections for %d sessions: case=%s model=%s" % (macc, len(meta["sessions"]), ml[:400], mo[:300]))
+        if not bad and int(d.get("accepted", -1)) != macc:
+            ctx.not_shown("correspondence carrierlayer (move): accepted connections differ: case=%s impl=%s model=%s" % (ml[:400], o[:200], mo[:300]))
+        # carriers without the token: closed by the server exactly when the model says so
+        for t in meta["tokenless"]:
+            ist = d.get("k%d" % t["i"], "open:x").split(":")[0]
+            mst = md.get("k%d" % t["i"], "token::").split(":")[0]
+            if t["must_close"] and (mst == "dead") != (ist == "closed") and not bad:
+                ctx.not_shown("correspondence carrierlayer (move): carrier %d: model %s, implementation %s: case=%s" % (t["i"], mst, ist, ml[:400]))
     sample = [(l, m) for l, m in zip(mlines, mout) if len(l) < 600][:20]
+    sample += [(l, m) for l, m in zip(mlines[len(scen):], mout[len(scen):]) if len(l) < 900][:12]
     for i in vlib.coq_crosscheck(sample):
         ctx.not_shown("extraction cross-check differs on " + sample[i][0][:300])
     ctx.extra["vm_compute_crosschecked"] = len(sample)
 
 
 def replay(ctx, doc):
-    exe = vlib.go_test_build("./server/lib", name="serverlib.test")
     env = dict(os.environ, VERIF_DRIVER="c05")
     bad = 0
     for v in doc.get("violations", []):
         case = v["replay"].get("case")
         if not case:
             continue
-        rc, out, err = vlib.run_impl(exe, [case], args=["-test.run", "^TestVerifC05Driver$"], env=env)
-        print("case: %s\n impl: %s" % (case[:400], out[0] if out else "!died"))
+        if case.startswith("carrierlayer move "):
+            rc, out, err = vlib.run_impl(vlib.go_build("./zz_verif/c05bb"), [case])
+        else:
+            rc, out, err = vlib.run_impl(build_inpackage(), [case], args=["-test.run", "^TestVerifC05Driver$"], env=env)
+        print("case: %s\n impl: %s" % (case[:400], out[0][:2000] if out else "!died"))
         bad += 1
     return 1 if bad else 0
